@@ -267,8 +267,41 @@ func genC16(r *rand.Rand, n int, emit func(Op)) {
 			}
 			emit(Op{"op": "setlength", "s": raw, "w": w, "ellipsis": "…"})
 		case 0:
+			if r.Intn(4) == 0 {
+				/* parts much taller than the terminal (hundreds of lines) above, at and below the
+				   cursor, parts of nothing at all, the smallest terminals and very tall ones; heights
+				   placed around the sizes of the parts, where the layout changes its case */
+				part := func() string {
+					switch r.Intn(5) {
+					case 0:
+						return ""
+					case 1:
+						return genLines(r, 3)
+					case 2:
+						return genLines(r, 8) + strings.Repeat("\nrow", 100+r.Intn(400))
+					case 3:
+						return strings.Repeat("\n", r.Intn(300))
+					default:
+						return genLines(r, 40)
+					}
+				}
+				p, c, sfx := part(), part(), part()
+				hp, hc, hs := strings.Count(p, "\n")+1, strings.Count(c, "\n")+1, strings.Count(sfx, "\n")+1
+				h := pick(r, []int{1, 2, 3, 4, hc - 1, hc, hc + 1, hc + 2, hc + 3, hc + 2*hp - 1, hc + 2*hp, hc + 2*hp + 1, hc + 2*hs - 1, hc + 2*hs, hc + 2*hs + 1,
+					hc + hp + hs, hc + hp + hs + 1, 2 + r.Intn(60), 100 + r.Intn(900)})
+				if h < 1 {
+					h = 1
+				}
+				emit(Op{"op": "center", "prefix": p, "centered": c, "suffix": sfx, "h": h})
+				continue
+			}
 			emit(Op{"op": "center", "prefix": genLines(r, 8), "centered": genLines(r, 8), "suffix": genLines(r, 8), "h": 1 + r.Intn(16)})
 		case 1:
+			if r.Intn(4) == 0 {
+				/* a frame of one line, of empty lines only, of hundreds of lines; an empty status line */
+				emit(Op{"op": "replacelast", "s": pick(r, []string{"", "x", "\n", "\n\n", "a\n", strings.Repeat("row\n", 300) + "end", strings.Repeat("\n", 500)}), "r": pick(r, []string{"", genCanonLine(r)})})
+				continue
+			}
 			emit(Op{"op": "replacelast", "s": genLines(r, 6), "r": genCanonLine(r)})
 		case 2:
 			emit(Op{"op": "height", "s": genLines(r, 6)})
